@@ -29,6 +29,7 @@ struct Plan {
     size_t qcap = 64;
     int64_t skew[4] = {0, 0, 0, 0};
     bool stdin_eof = false, o0 = false, ethpad = false;
+    double read0 = 0;
     std::vector<CanW> can;
     std::vector<StdinW> in;
     std::vector<Mut> mut;
